@@ -1640,9 +1640,7 @@ class Parameter(_ParameterBase):
         if ref is not None:
             self.owner.param._update_ref(name, ref)
         elif name in private.refs and name not in private.syncing:
-            del private.refs[name]
-            if name in private.async_refs:
-                private.async_refs.pop(name).cancel()
+            self.owner.param._update_ref(name, None)
 
     def _validate_value(self, value, allow_None):
         """Validate the parameter value against constraints.
@@ -2171,6 +2169,8 @@ class Parameters:
             dep_obj.param.unwatch(watcher)
         self_.self._param__private.ref_watchers = []
         refs = dict(self_.self._param__private.refs, **{name: ref})
+        if ref is None:
+            del refs[name]
         deps = {
             pname: resolve_ref(pref, self_[pname].nested_refs)
             for pname, pref in refs.items()
